@@ -604,6 +604,36 @@ func streamEdsReconcile(r *rand.Rand, i int, tier string) *Case {
 		}
 		time.Sleep(2 * time.Millisecond)
 	}
+	if prerun && len(failAt) == 0 && !staleRead {
+		// between the two reconciles one pod was replaced: an old replica set reports one pod less, the active
+		// one one more — the sums stay, only what is derived from the active replica set alone moves
+		cur := &edsv1.ExtendedDaemonSet{}
+		_ = cl.Get(context.TODO(), types.NamespacedName{Namespace: testNS, Name: testEDS}, cur)
+		all2 := &edsv1.ExtendedDaemonSetReplicaSetList{}
+		_ = cl.List(context.TODO(), all2, client.InNamespace(testNS))
+		var act, other *edsv1.ExtendedDaemonSetReplicaSet
+		for k := range all2.Items {
+			e := &all2.Items[k]
+			if e.Labels[edsv1.ExtendedDaemonSetNameLabelKey] != testEDS {
+				continue
+			}
+			if e.Name == cur.Status.ActiveReplicaSet {
+				act = e
+			} else if e.Status.Current > 0 && e.Status.Ready > 0 && e.Status.Available > 0 && e.Status.Desired > 0 {
+				other = e
+			}
+		}
+		if act != nil && other != nil {
+			other.Status.Desired, other.Status.Current, other.Status.Ready, other.Status.Available = other.Status.Desired-1, other.Status.Current-1, other.Status.Ready-1, other.Status.Available-1
+			act.Status.Desired, act.Status.Current, act.Status.Ready, act.Status.Available = act.Status.Desired+1, act.Status.Current+1, act.Status.Ready+1, act.Status.Available+1
+			_ = cl.Status().Update(context.TODO(), other)
+			_ = cl.Status().Update(context.TODO(), act)
+			wl.mu.Lock()
+			wl.Order, wl.Created, wl.Deleted, wl.Updated, wl.Status, wl.Patched = nil, nil, nil, nil, nil, nil
+			wl.mu.Unlock()
+			cat = append(cat, "pod-replaced-between-reconciles")
+		}
+	}
 	// list order of replica sets as the API returns it
 	lst := &edsv1.ExtendedDaemonSetReplicaSetList{}
 	_ = cl.List(context.TODO(), lst)
